@@ -1,5 +1,8 @@
-//! C12.1 — TrackShared state mirror.
+//! C12.1 — TrackShared state mirror; re-exports of the track builders for harness modules outside `track`.
+// @deps info,parameter,track/sub,track/send
 use super::*;
+pub(crate) use super::sub::kani_proofs::{mk_track, forget_rest};
+pub(crate) use super::send::kani_proofs::mk_send_track;
 
 // @ob id=C12.1a strength=complete tier=quick fn=track.rs::{TrackShared::{set_state,state},<TrackPlaybackState as From<PlaybackState>>::from}
 // @req every playback state a track's state machine can be in through pause / resume / resume_at and fade completion: Playing, Pausing, Paused, WaitingToResume, Resuming
